@@ -60,7 +60,24 @@ func main() {
 	variantFlag := flag.String("variants", "", "comma separated build variants (default native; thorough: native,go118,386)")
 	verbose := flag.Bool("v", false, "print every obligation")
 	dump := flag.String("dump", "", "debug: print the SSA of rel/pkg:Func (e.g. :Dials.monitor, transform:Transformer.ReverseTranslate)")
+	genAnchorsTo := flag.String("gen-anchors", "", "write the structural fingerprints of the current tree (rename tolerance) to this file and exit")
 	flag.Parse()
+	if *genAnchorsTo != "" {
+		w, err := loadVariant(*repo, "native", nil)
+		if err != nil {
+			fmt.Println(err)
+			os.Exit(2)
+		}
+		if len(renameNotes) > 0 {
+			fmt.Println("refusing to record fingerprints of a tree that is itself seen through renames:", renameNotes)
+			os.Exit(2)
+		}
+		if err := writeAnchors(w, *genAnchorsTo); err != nil {
+			fmt.Println(err)
+			os.Exit(2)
+		}
+		os.Exit(0)
+	}
 	if *dump != "" {
 		w, err := loadVariant(*repo, "native", nil)
 		if err != nil {
